@@ -20,6 +20,19 @@ CHECKS = {
          "For every document the implementation accepts in the enumerated spaces, the compact serialization must be accepted completely, denote an equal document by two independent equality notions, and be a fixpoint of the printer.",
          "Equality is judged by mc/src/obs.rs dumps and by the crate's own PartialEq; documents outside the enumerated spaces are not covered.",
          "DESIGN.md §5 C04"),
+
+ "C12": ("explicit-state BFS over DOM call histories on the real xml_dom objects (state = history, re-executed from a fresh parse; canonical-key dedup), tree invariants evaluated after every transition and attributed to the transition that introduces them",
+         "Every DOM Level 1 structural mutator, factory, attribute operation and split_text is applied with every receiver/argument choice among all live handles (attached, detached, created, foreign, document, attributes, text) to every reachable state up to the depth bound; in every reached state all navigation views of all live nodes are cross-checked.",
+         "Node identity is (kind, XmlNode::id()); states beyond the depth bound and more than one created node per history are not covered.",
+         "DESIGN.md §5 C12"),
+ "C13": ("explicit-state BFS over DOM call histories with a reference DOM Level 1 tree applied in lock-step: effect, admissible exception set, atomic failure, no panic",
+         "For every (reachable state, call) the implementation's outcome must be the DOM Level 1 effect computed by the reference tree or one of the exception classes DOM Level 1 allows there; a failed call must leave tree, order-key ranks and serialization unchanged; a panic is a violation.",
+         "Trusts mc/src/model/dom.rs (Appendix B of DESIGN.md) incl. its leniencies where DOM Level 1 is silent; errors are mapped to DOM classes leniently.",
+         "DESIGN.md §5 C13"),
+ "C14": ("explicit-state BFS over edit histories; after every state-changing transition (1) order keys strictly increase along the harness's own pre-order walk and (2) 26 node-set queries select the same positions on the edited document as on a fresh parse of its serialization (differential, no expected values)",
+         "Order-key monotonicity and query agreement with the re-parsed serialization are evaluated in every reached state of the bounded search and attributed to the transition that breaks them.",
+         "Positions are compared on a walk that merges adjacent Text nodes and drops empty ones (what a re-parse produces); positional queries are compared only in states without adjacent/empty Text nodes; states whose serialization does not re-parse are C15's concern.",
+         "DESIGN.md §5 C14"),
  # id: (technique, level text, level note, design_ref)
  "C18": ("total enumeration of all 1,114,112 scalar values + bounded-exhaustive name strings (len<=3/4 over 30 class representatives) in 8 syntactic positions, against transcribed tables",
          "Every Unicode scalar value is classified by the five public predicates and compared with tables transcribed from the Recommendation (complete, no bound); every short string over class representatives and range boundaries is offered as a name in every syntactic position and accept/reject compared with reference Name/NCName/QName matchers.",
